@@ -98,7 +98,7 @@ def one_shot(pairs):
 class C17(Property):
     PID = 'C17'
     QUICK_BUDGET_S = 40
-    THOROUGH_BUDGET_S = 600
+    THOROUGH_BUDGET_S = 500
     RULE = ('a case is one whole history over a register file of OneToOne (or ManyToMany, or one FrozenDict) '
             'instances: constructors from dict / pairs / one-shot iterator / kwargs / another instance (either '
             'side; OneToOne.unique too), copy, and every mutator applied through the forward object or through the '
